@@ -5,7 +5,7 @@
    trip are validated on every run on the implementation's output
    (checks/C36.md); they are not theorems. *)
 From Coq Require Import String.
-From verif Require Import lib.Base model.C35_Bal model.C35_Inline model.C36 proofs.C36_proofs.
+From verif Require Import lib.Base model.C35_Bal model.C35_Inline model.C36 proofs.C36_proofs proofs.C36_inert proofs.C36_linktail.
 
 (* The fence chosen by codeFences is safe for every info string and content:
    it consists of at least 3 backticks or tildes, no content line can be read as
@@ -17,16 +17,18 @@ Theorem C36_code_fence_safe : forall info lines,
 Proof. exact code_fence_safe. Qed.
 Print Assumptions C36_code_fence_safe.
 
-(* escapeText (modelled dispatch table): removing the backslash escapes gives
-   the text back (a non-breaking space is written as its entity), and no
-   unescaped bracket, star, backtick, backslash or less-than sign remains.
-   Partial: underscore and ampersand are left unescaped in contexts where the
-   inline parser cannot treat them as markup (intraword underscore, ampersand
-   that starts no character reference); that those contexts are inert is
-   covered by the sampled HTML-preservation check, not by this theorem. *)
-Theorem C36_escaped_text_is_inert_partial : forall s, esc_text_ok s (escape_text s) = true.
+(* escapeText (modelled dispatch table), for every rune text whose word flags are
+   sane (no word rune is one of the special bytes): removing the backslash
+   escapes gives the text back (a non-breaking space is written as its entity);
+   no bracket, star, backtick, backslash or less-than sign is left unescaped; an
+   underscore left unescaped has word runes on both sides in the OUTPUT, where
+   canOpenCloseEmphasis (C35) gives it neither the right to open nor to close;
+   an ampersand left unescaped starts no character reference in the OUTPUT
+   (leadingCharRef of the output from there is empty), except the nbsp entity. *)
+Theorem C36_escaped_text_is_inert : forall s, sane s = true ->
+  esc_text_ok s (esc_text_w false s) = true.
 Proof. exact escaped_text_is_inert. Qed.
-Print Assumptions C36_escaped_text_is_inert_partial.
+Print Assumptions C36_escaped_text_is_inert.
 
 (* Reflow line breaking (greedy model, lines whose start needs no escaping):
    the words come out in order, none lost or added ... *)
@@ -39,6 +41,18 @@ Theorem C36_reflow_fits_or_unbreakable : forall maxw spans,
   Forall (fun l => (line_width l <= maxw)%nat \/ List.length l = 1%nat) (reflow maxw [] 0 spans).
 Proof. exact reflow_fits_or_unbreakable. Qed.
 Print Assumptions C36_reflow_fits_or_unbreakable.
+
+(* Link tails round-trip, for ALL destinations and titles (any bytes): the
+   modelled parser applied to what the modelled formatter writes consumes all of
+   it and returns exactly the destination and the title.  (formatLinkTail with
+   escapeAmpersandBackslash, wrapAndEscapeLinkTitle, balancedParens,
+   escapeNewLines against linkTailParser.parse with parseBackslash, parseCharRef,
+   leadingCharRef, unescapeHTML.) *)
+Theorem C36_link_tail_roundtrip : forall dest title,
+  parse_link_tail (format_link_tail dest title) =
+  TailOk (List.length (format_link_tail dest title)) dest title.
+Proof. exact link_tail_roundtrip. Qed.
+Print Assumptions C36_link_tail_roundtrip.
 
 (* non-vacuity and link-tail round trips on planted hard cases (destination with
    spaces / unbalanced parentheses / leading angle bracket, titles with every
